@@ -128,6 +128,14 @@ pub fn run() -> i32 {
             q2.push(BasicRule { input: i.clone(), output: o.clone(), context: vec![], except: vec![e.clone()] });
         } }
         run_box(&mut r, "Q2: c=2, context-only and exception-only, `a > i` and `C > [+voice]`, W(I3,4)", q2, &w34);
+        // environment sets of two c=1 environments in BOTH orders (order must not matter), as context and as exception
+        let e1s = envs(1);
+        let mut q3 = vec![];
+        for (i, o) in [(ins[2].clone(), outs[1].clone())] { for a in e1s.iter() { for b in e1s.iter() { if a == b { continue; }
+            q3.push(BasicRule { input: i.clone(), output: o.clone(), context: vec![a.clone(), b.clone()], except: vec![] });
+            q3.push(BasicRule { input: i.clone(), output: o.clone(), context: vec![], except: vec![a.clone(), b.clone()] });
+        } } }
+        run_box(&mut r, "Q3: environment sets of two c=1 environments, both orders, `a > i`, W(I3,4)", q3, &w34);
     } else {
         let w35 = word_space(&inventory(3), 5);
         let e1 = envs(1);
@@ -146,7 +154,7 @@ pub fn run() -> i32 {
         } } }
         run_box(&mut r, "T2: context c=1 x exception c=1, W(I4,4)", t2, &w44);
         let mut t4 = vec![];
-        for (i, o) in &io { for (ai, a) in e1.iter().enumerate() { for b in e1.iter().skip(ai + 1) {
+        for (i, o) in &io { for (ai, a) in e1.iter().enumerate() { for (bi, b) in e1.iter().enumerate() { if ai == bi { continue; }
             t4.push(BasicRule { input: i.clone(), output: o.clone(), context: vec![a.clone(), b.clone()], except: vec![] });
             t4.push(BasicRule { input: i.clone(), output: o.clone(), context: vec![], except: vec![a.clone(), b.clone()] });
         } } }
